@@ -3,6 +3,7 @@ import Srtla.Lemmas.SendAll
 import Srtla.Lemmas.RunLevelGhost
 import Srtla.Lemmas.RunLevelGhostReload
 import Srtla.Lemmas.ProbeRateReload
+import Srtla.Lemmas.AccountingReload
 import Srtla.Lemmas.SysDir
 import Srtla.Lemmas.SysInvQual
 import Srtla.Props.C03
@@ -1226,6 +1227,37 @@ theorem C01_probe_rate_by_id_reading (s : Sys F) (ev : Ev) (evs : List Ev) (c : 
     (idxOfId s c = none → c ∉ ids s.links) :=
   ⟨rfl, rfl, rfl, fun _ h => by obtain ⟨l, h1, h2, -⟩ := idxOfId_some h; exact ⟨l, h1, h2⟩, idxOfId_none⟩
 
+/-- **Hold time over runs WITH reloads** (`C01_hold` without `NoReload`): after every event list from a state
+satisfying `Inv`, reloads included (the drawn ids new: `FreshRun`), conn ids are still pairwise distinct and every
+queue holds fewer than 32 datagrams (a created link starts with the empty queue). -/
+theorem C01_hold_run_reload (s : Sys F) (h : Inv s) (evs : List Ev) (hf : FreshRun s evs) :
+    (ids (run s evs).1.links).Nodup ∧ ∀ l ∈ (run s evs).1.links, l.queue.length < 32 :=
+  ⟨(Inv_run_reload s h evs hf).nodup, (Inv_run_reload s h evs hf).hold⟩
+
+/-- **Exact accounting BY CONN ID over ANY run** (`C01_accounting` without `NoReload`; `Lemmas/AccountingReload.lean`).
+For every conn id `c`: (the queue the link with conn id `c` holds initially — `[]` if no link carries `c`) followed by
+(its arrival log `arrivalsId`: what the events append to the queue of the link that carries `c`, read at the index it
+has THEN) splits, IN ORDER, into the departed items followed by (the queue the link with conn id `c` holds at the
+end); every departed item carries one flag (`true` = put on the wire, `false` = discarded); and the wire log of the
+conn id (`wireLogId`: the data-path output to `c` while `c` names a present link) is exactly the `true` items, in
+order, byte for byte.  At a reload: a retained link keeps its queue (nothing departs); the queue of a REMOVED link
+departs flagged `false` — discarded with the link, the accounted additional discard cause; a created link starts
+empty. -/
+theorem C01_accounting_by_id (s : Sys F) (h : Inv s) (evs : List Ev) (hf : FreshRun s evs) (c : Nat) :
+    ∃ dep : List (QItem × Bool),
+      queueOfId s c ++ arrivalsId s evs c = dep.map (·.1) ++ queueOfId (run s evs).1 c ∧
+      Ghost.wireLogId s evs c = bytesOf ((dep.filter (·.2)).map (·.1)) :=
+  run_accounting_id s h evs hf c
+
+/-- **Intact, in order, at most once per conn id over ANY run** (`C01_intact_in_order` without `NoReload`): (the
+datagrams the data path put on the socket of conn id `c`, in order) followed by (the payloads the link with conn id
+`c` still holds at the end) is a SUBSEQUENCE of (the payloads it held initially) followed by (the client datagrams of
+the run, in arrival order). -/
+theorem C01_intact_in_order_by_id (s : Sys F) (h : Inv s) (evs : List Ev) (hf : FreshRun s evs) (c : Nat) :
+    (Ghost.wireLogId s evs c ++ bytesOf (queueOfId (run s evs).1 c)).Sublist
+      (bytesOf (queueOfId s c) ++ bytesOf (clientItems evs)) :=
+  run_sublist_id s h evs hf c
+
 end probeRateById
 
 section probeRateByIdExamples
@@ -1256,6 +1288,45 @@ example :
    by decide +kernel, by decide +kernel⟩
 
 example (c : Nat) := @C01_probe_rate_by_id Int fixScalar exSysP ⟨by decide, by decide⟩ exEvsP (by decide +kernel) c
+
+example := @C01_probe_rate_by_id_reading Int fixScalar exSysP (.reload 4990 [1, 2, 4] [some 8]) [.client 5000 exData] 3
+
+/-- The by-id logs on the run `exEvsR` of section 12 (a reload REMOVES the uplink with conn id 1 while two datagrams
+are queued on it, keeps conn id 3 — which moves from index 1 to index 0 — and creates conn id 7): conn id 1 — both
+arrivals depart DISCARDED (nothing on its wire, nothing queued at the end: the link is gone); conn id 3 — its two
+arrivals (the probe copy before the reload, the control packet after it, at ANOTHER index) are both on its wire, in
+order; conn id 7 — nothing.  `Inv` / `FreshRun` of this run: the example of section 12. -/
+example :
+    @arrivalsId Int fixScalar exSysR exEvsR 1 = [(exCtl, none, 5000), (exData, some 5, 5001)] ∧
+    @Ghost.wireLogId Int fixScalar exSysR exEvsR 1 = [] ∧ @queueOfId Int (@run Int fixScalar exSysR exEvsR).1 1 = [] ∧
+    @idxOfId Int (@run Int fixScalar exSysR exEvsR).1 1 = none ∧
+    @arrivalsId Int fixScalar exSysR exEvsR 3 = [(exData, some 5, 5001), (exCtl, none, 5006)] ∧
+    @Ghost.wireLogId Int fixScalar exSysR exEvsR 3 = [exData, exCtl] ∧
+    @queueOfId Int (@run Int fixScalar exSysR exEvsR).1 3 = [] ∧
+    @idxOfId Int exSysR 3 = some 1 ∧ @idxOfId Int (@run Int fixScalar exSysR exEvsR).1 3 = some 0 ∧
+    @arrivalsId Int fixScalar exSysR exEvsR 7 = [] ∧ @Ghost.wireLogId Int fixScalar exSysR exEvsR 7 = [] ∧
+    ¬ NoReload exEvsR := by
+  refine ⟨?_, ?_, ?_, ?_, ?_, ?_, ?_, ?_, ?_, ?_, ?_, ?_⟩ <;> decide +kernel
+
+/-- The accounting equation of `C01_accounting_by_id` on that run, with its `dep` exhibited: conn id 1 — two
+departures flagged `false`; conn id 3 — two flagged `true`. -/
+example :
+    let dep1 : List (QItem × Bool) := [((exCtl, none, 5000), false), ((exData, some 5, 5001), false)]
+    let dep3 : List (QItem × Bool) := [((exData, some 5, 5001), true), ((exCtl, none, 5006), true)]
+    (@queueOfId Int exSysR 1 ++ @arrivalsId Int fixScalar exSysR exEvsR 1 =
+        dep1.map (·.1) ++ @queueOfId Int (@run Int fixScalar exSysR exEvsR).1 1 ∧
+      @Ghost.wireLogId Int fixScalar exSysR exEvsR 1 = bytesOf ((dep1.filter (·.2)).map (·.1))) ∧
+    (@queueOfId Int exSysR 3 ++ @arrivalsId Int fixScalar exSysR exEvsR 3 =
+        dep3.map (·.1) ++ @queueOfId Int (@run Int fixScalar exSysR exEvsR).1 3 ∧
+      @Ghost.wireLogId Int fixScalar exSysR exEvsR 3 = bytesOf ((dep3.filter (·.2)).map (·.1))) := by
+  refine ⟨⟨?_, ?_⟩, ⟨?_, ?_⟩⟩ <;> decide +kernel
+
+/-- Instances of the theorems on that run (hypotheses as in the example of section 12). -/
+theorem exEvsR_fresh : @FreshRun Int fixScalar exSysR exEvsR := by decide +kernel
+
+example (c : Nat) := @C01_accounting_by_id Int fixScalar exSysR ⟨by decide, by decide⟩ exEvsR exEvsR_fresh c
+example (c : Nat) := @C01_intact_in_order_by_id Int fixScalar exSysR ⟨by decide, by decide⟩ exEvsR exEvsR_fresh c
+example := @C01_hold_run_reload Int fixScalar exSysR ⟨by decide, by decide⟩ exEvsR exEvsR_fresh
 
 end probeRateByIdExamples
 
